@@ -26,7 +26,6 @@ import (
 	"strconv"
 	"strings"
 	"sync"
-	"time"
 	"unicode/utf8"
 
 	commonpb "go.opentelemetry.io/proto/otlp/common/v1"
@@ -121,13 +120,13 @@ type Mech struct {
 	Responses int
 }
 type Case struct {
-	ID    string   `json:"id"`
-	Cfg   string   `json:"cfg"`
-	Body  Body     `json:"body"`
-	N     int      `json:"n"`
+	ID    string    `json:"id"`
+	Cfg   string    `json:"cfg"`
+	Body  Body      `json:"body"`
+	N     int       `json:"n"`
 	Def   []DefSpan `json:"def"`
-	Mech  Mech     `json:"mech"`
-	Flags []string `json:"flags"`
+	Mech  Mech      `json:"mech"`
+	Flags []string  `json:"flags"`
 }
 
 // ---------------------------------------------------------------------------------------------------------------
@@ -292,9 +291,9 @@ func (c *conc) boolean(a string) bool {
 }
 
 // instants / durations: abstract ns -> concrete ns (abstract microsecond u of Zipkin = abstract ns 1000u)
-func (c *conc) instant(n int64) int64  { return c.baseUS*1000 + n*c.scale }
-func (c *conc) duration(n int64) int64 { return n * c.scale }
-func (c *conc) micros(u int64) int64   { return c.baseUS + u*c.scale }
+func (c *conc) instant(n int64) int64   { return c.baseUS*1000 + n*c.scale }
+func (c *conc) duration(n int64) int64  { return n * c.scale }
+func (c *conc) micros(u int64) int64    { return c.baseUS + u*c.scale }
 func (c *conc) microsDur(u int64) int64 { return u * c.scale }
 
 func (c *conc) path(p []string) string {
@@ -706,7 +705,9 @@ func pad(id []string) []string { // DecodeHex of the spec, for ids that are alre
 // compareDef: the clauses of the property statement, on the observed rows and read-back
 func (c *conc) compareDef(cs *Case, rq request, o *observation) []mismatch {
 	var mm []mismatch
-	add := func(kind string, span int, f string, a ...any) { mm = append(mm, mismatch{kind, span, clip(fmt.Sprintf(f, a...))}) }
+	add := func(kind string, span int, f string, a ...any) {
+		mm = append(mm, mismatch{kind, span, clip(fmt.Sprintf(f, a...))})
+	}
 	if len(o.Rows) != cs.N {
 		add("rows-count", 0, "%d spans accepted (HTTP %d), %d rows in tempo_traces", cs.N, o.Status, len(o.Rows))
 	}
@@ -1386,10 +1387,10 @@ func runParent(casesPath, outPath string, seed int64, workers int) error {
 		return err
 	}
 	type idOnly struct {
-		ID   string `json:"id"`
-		Cfg  string `json:"cfg"`
-		Body struct{ Proto, Framing string }
-		N    int
+		ID    string `json:"id"`
+		Cfg   string `json:"cfg"`
+		Body  struct{ Proto, Framing string }
+		N     int
 		Flags []string
 	}
 	var mu sync.Mutex
@@ -1538,7 +1539,6 @@ func main() {
 	workers := fs.Int("workers", 6, "child processes")
 	fs.Parse(os.Args[2:])
 	var err error
-	t0 := time.Now()
 	switch os.Args[1] {
 	case "run":
 		err = runParent(*cases, *out, *seed, *workers)
@@ -1551,5 +1551,4 @@ func main() {
 		fmt.Fprintln(os.Stderr, "c06:", err)
 		os.Exit(2)
 	}
-	_ = t0
 }
